@@ -106,7 +106,7 @@ def run(tier):
     ck = core.Check(PID, tier)
     binary = build.ensure('asan', parts=['parse', 'domdump'])
     D = pool_docs()
-    nseq = 700 if tier == 'quick' else 25000
+    nseq = 700 if tier == 'quick' else 10000
     rounds = 1 if tier == 'quick' else 10
     length = (6, 12) if tier == 'quick' else (8, 30)
     stats = collections.Counter()
